@@ -28,6 +28,8 @@ import shutil
 import lib
 
 OPKW = ("query", "mutation", "subscription", "fragment")
+# document families for which ParseWithLimits is judged against the accounting model (decision and statistics)
+CONFORM_FAMILIES = ("exec", "mixed", "sdl")
 
 
 # ------------------------------------------------------------------------------------------------ helpers
@@ -312,6 +314,11 @@ def edits_schema_description(b, toks):
             and (i == 0 or not tok_is(b, toks[i - 1], b":"))]
 
 
+def edits_block_carriage_return(b, toks):
+    """a block string with CR / CR LF line terminators: the same literal with LF line terminators"""
+    return [(s0, e0, b[s0:e0].replace(b"\r\n", b"\n").replace(b"\r", b"\n")) for k, s0, e0 in toks if k == "block" and b"\r" in b[s0:e0]]
+
+
 def edits_shorthand_after_braceless_definition(b, toks):
     """an unnamed `query {` right after a type-system definition that did not end with `}`: give the query a name"""
     return [(toks[i][2], toks[i][2], b" Qx") for i in range(1, len(toks) - 1)
@@ -320,6 +327,7 @@ def edits_shorthand_after_braceless_definition(b, toks):
 
 
 CAUSES = [
+    ("rt:description:carriage-return-line-terminator", edits_block_carriage_return),
     ("rt:block-string:surrounding-whitespace-trimmed", edits_block_trim),
     ("rt:operation:anonymous-query-with-directives", edits_anonymous_query_directives),
     ("rt:operation:anonymous-query-with-description", edits_anonymous_query_description),
@@ -553,7 +561,9 @@ def generate(ctx, quick):
         dict(spec_dirs="core", module="MC_GQLGrammar", cfg="MC_GQLGrammar_pinned.cfg", timeout=900, deadlock=False, workers=2, count=False,
              tag="mc-accounting-pinned-negative"),
         dict(spec_dirs="core", module="Gen_GQLGrammar", cfg="Gen_GQLGrammar_bfs%s.cfg" % sfx, timeout=3000, deadlock=False, workers=4, tag="mc+gen-bfs"),
-        dict(spec_dirs="core", module="Gen_GQLGrammar", cfg="Gen_GQLGrammar_shape%s.cfg" % sfx, timeout=3000, deadlock=False, workers=4, tag="mc+gen-shape"),
+        # quick: the deep-narrow configuration with every operation kind (contains the query-only shape configuration)
+        dict(spec_dirs="core", module="Gen_GQLGrammar", cfg="Gen_GQLGrammar_ops.cfg" if quick else "Gen_GQLGrammar_shape_thorough.cfg", timeout=3000,
+             deadlock=False, workers=4, tag="mc+gen-shape"),
         dict(spec_dirs="core", module="Gen_GQLGrammar", cfg="Gen_GQLGrammar_sim.cfg", timeout=3000, deadlock=False, workers=1, simulate=num,
              depth=200, seed=ctx.seed, tag="gen-simulate"),
     ]
@@ -567,6 +577,7 @@ def generate(ctx, quick):
         dict(spec_dirs="core", module="Gen_GQLGrammarLit", cfg="Gen_GQLGrammarLit_bfs%s.cfg" % sfx, timeout=3000, deadlock=False, workers=2, tag="mc+gen-lit-bfs"),
         dict(spec_dirs="core", module="Gen_GQLGrammarLit", cfg="Gen_GQLGrammarLit_sim.cfg", timeout=3000, deadlock=False, workers=1,
              simulate=500 if quick else 6000, depth=5, seed=ctx.seed, tag="gen-lit-simulate"),
+        dict(spec_dirs="core", module="Gen_GQLGrammarMixed", cfg="Gen_GQLGrammarMixed_pairs.cfg", timeout=3000, deadlock=False, workers=2, tag="gen-mixed-pairs"),
         # documents mixing executable and type-system definitions
         dict(spec_dirs="core", module="Gen_GQLGrammarMixed", cfg="Gen_GQLGrammarMixed_sim.cfg", timeout=3000, deadlock=False, workers=1,
              simulate=900 if quick else 10000, depth=200, seed=ctx.seed, tag="gen-mixed-simulate"),
@@ -574,22 +585,31 @@ def generate(ctx, quick):
     if not quick:
         jobs.append(dict(spec_dirs="core", module="MC_GQLGrammar", cfg="MC_GQLGrammar_pinned_shape.cfg", timeout=1800, deadlock=False, workers=2,
                          count=False, tag="mc-accounting-pinned-shape-negative"))
+        jobs.append(dict(spec_dirs="core", module="Gen_GQLGrammar", cfg="Gen_GQLGrammar_ops_thorough.cfg", timeout=3000, deadlock=False, workers=4,
+                         tag="mc+gen-ops"))
     res = tlc_parallel(ctx, jobs)
     consts = next((x for x in must(res[0], "constants").printed if isinstance(x, dict) and "alphabet" in x), None)
     if not consts:
         raise lib.Inconclusive("the specification's constants were not printed")
-    for r in [res[1]] + res[11:]:
+    for r in [res[1]] + res[12:13]:
         if r.violated != "AccountingSoundPinned":
             raise lib.Inconclusive("sanity: the model of the token accounting as pinned should violate AccountingSoundPinned, got %r" % r.error)
     docs, runs = [], []
     for tag, r, exhaustive in (("bfs", res[2], True), ("shape", res[3], True), ("sim", res[4], False), ("sim-wide", res[5], False),
                                ("sdl-bfs", res[6], True), ("sdl-sim", res[7], False), ("lit-bfs", res[8], True), ("lit-sim", res[9], False),
-                               ("mixed-sim", res[10], False)):
+                               ("mixed-pairs", res[10], True), ("mixed-sim", res[11], False)):
         must(r, "generator " + tag)
         ds = [d for d in r.printed if isinstance(d, dict) and "toks" in d]
         for d in ds:
             d["src"] = tag
         runs.append({"generator": tag, "documents": len(ds), "exhaustive_for_its_bounds": exhaustive})
+        docs += ds
+    if not quick:
+        must(res[13], "generator ops")
+        ds = [d for d in res[13].printed if isinstance(d, dict) and "toks" in d]
+        for d in ds:
+            d["src"] = "ops"
+        runs.append({"generator": "ops", "documents": len(ds), "exhaustive_for_its_bounds": True})
         docs += ds
     uniq = {}
     for d in docs:
@@ -618,17 +638,17 @@ def validate(ctx, trace):
         jobs.append(dict(spec_dirs="core", module="Trace_GQLGrammar", cfg="Trace_GQLGrammar.cfg", workers=1, env={"TRACE": tp}, timeout=3000,
                          deadlock=False, count=False, tag="trace-validation-%d" % k, heap="4g"))
     res = tlc_parallel(ctx, jobs, width=4)
-    unsound, disagree, valuediff = [], [], []
+    unsound, disagree, valuediff, nonconform = [], [], [], []
     for off, v in zip(offs, res):
         if not v.ok:
             stuck = [x for x in v.out.splitlines() if "TRACE_STUCK_AT_LINE" in x]
             print(v.out[-2500:])
             raise lib.Inconclusive("observations are not bound to the specification (%s) — harness/model problem, not a verdict" % (stuck[:1] or v.error))
         for x in v.printed:
-            if isinstance(x, dict) and x.get("k") in ("unsound", "disagree", "valuediff"):
+            if isinstance(x, dict) and x.get("k") in ("unsound", "disagree", "valuediff", "nonconform"):
                 x["line"] += off          # 1-based line in the whole trace
-                {"unsound": unsound, "disagree": disagree, "valuediff": valuediff}[x["k"]].append(x)
-    return unsound, disagree, valuediff
+                {"unsound": unsound, "disagree": disagree, "valuediff": valuediff, "nonconform": nonconform}[x["k"]].append(x)
+    return unsound, disagree, valuediff, nonconform
 
 
 def run(ctx):
@@ -658,7 +678,7 @@ def run(ctx):
         d["family"] = "mixed" if has_sdl and has_exec else "sdl" if has_sdl else "exec"
         d["strings"] = [j for j, t in enumerate(d["toks"]) if t["s"].startswith('"')]
         # quick tier: the long simulated documents get their mutants for a seed-selected third only, the literal-centred ones none
-        mut = not (quick and (d["src"] in ("lit-bfs", "lit-sim") or (d["src"] in ("sim", "sim-wide", "sdl-sim", "mixed-sim") and (i + ctx.seed) % 3 != 0)))
+        mut = not (quick and (d["src"] in ("lit-bfs", "lit-sim", "mixed-pairs") or (d["src"] in ("sim", "sim-wide", "sdl-sim", "mixed-sim") and (i + ctx.seed) % 3 != 0)))
         case = {"id": d["id"], "kind": "doc", "toks": [t["s"] for t in d["toks"]], "gq": {"exec": "q", "sdl": "s", "mixed": ""}[d["family"]],
                 "lims": [list(p) for p in lims], "mut": mut, "variants": 3, "lit": bool(d["strings"])}
         if d["family"] == "exec" and "desc" in roles:
@@ -781,7 +801,8 @@ def run(ctx):
         for lr in o["lims"]:
             if lr["panic"]:
                 judge.failure("generated (ParseWithLimits %d/%d)" % (lr["L"], lr["F"]), d["text"].encode(), "panic", lr["panic"])
-            trace.append({"k": "lim", "L": lr["L"], "F": lr["F"], "acc": lr["acc"]})
+            trace.append({"k": "lim", "L": lr["L"], "F": lr["F"], "acc": lr["acc"], "statD": lr["statD"], "statF": lr["statF"], "dacc": b["acc"],
+                          "chk": d["family"] in CONFORM_FAMILIES})
             line_of[len(trace)] = (i, lr)
             stats["lim_obs"] += 1
             if not lr["acc"] and b["acc"] and not ((lr["L"] > 0 and d["idepth"] > lr["L"]) or (lr["F"] > 0 and d["fields"] > lr["F"])):
@@ -854,7 +875,20 @@ def run(ctx):
     judge.flush()
 
     # ---- 6. TLC validation -------------------------------------------------------------------------
-    unsound, disagree, valuediff = validate(ctx, trace)
+    unsound, disagree, valuediff, nonconform = validate(ctx, trace)
+    for u in nonconform:
+        i, lr = line_of[u["line"]]
+        d = docs[i]
+        if u["decision"]:
+            key = "limits:accounting:decision-differs-from-model:%s" % ("accepted" if lr["acc"] else "rejected")
+            what = ("ParseWithLimits(MaxDepth=%d, MaxFields=%d) %s a document for which the specification of the accounting (cumulative depth %d, "
+                    "%d counted identifiers) decides otherwise: %s" % (lr["L"], lr["F"], "accepted" if lr["acc"] else "rejected", u["modelD"], u["modelF"], d["text"][:200]))
+        else:
+            key = "limits:accounting:statistics-differ-from-model"
+            what = "ParseWithLimits without limits reports TotalDepth=%d TotalFields=%d, the specification of the accounting gives %d / %d: %s" % (
+                lr["statD"], lr["statF"], u["modelT"], u["modelF"], d["text"][:200])
+        judge.report(key, what, {"kind": "limits", "text": d["text"], "toks": d["toks"], "L": lr["L"], "F": lr["F"], "depth": d["depth"],
+                                 "idepth": d["idepth"], "fields": d["fields"], "nmut": d["nmut"], "counterfactuals": {}})
     for u in valuediff:
         i, info = line_of[u["line"]]
         judge.value_changed(docs[i], info)
@@ -927,13 +961,14 @@ def replay(ctx, binary):
         lr = recs[0]["lims"][0]
         trace = [{"k": "doc", "toks": case["toks"], "text": case["text"], "depth": case["depth"], "idepth": case["idepth"], "fields": case["fields"],
                   "nmut": case["nmut"], "nmutSeen": 0, "acc": recs[0]["base"]["acc"], "astF": recs[0]["base"]["astF"], "astD": recs[0]["base"]["astD"]},
-                 {"k": "lim", "L": lr["L"], "F": lr["F"], "acc": lr["acc"]}, {"k": "end"}]
+                 {"k": "lim", "L": lr["L"], "F": lr["F"], "acc": lr["acc"], "statD": lr["statD"], "statF": lr["statF"],
+                  "dacc": recs[0]["base"]["acc"], "chk": True}, {"k": "end"}]
         tp = ctx.path("replay-trace.ndjson")
         lib.write_ndjson(tp, trace)
         v = ctx.tlc("core", "Trace_GQLGrammar", "Trace_GQLGrammar_strict.cfg", workers=1, env={"TRACE": tp}, timeout=600, deadlock=False, count=False,
                     tag="replay-strict")
-        if v.violated == "LimitsSound":
-            ctx.violation(key, "reproduced: " + rp["what"], case)
+        if v.violated in ("LimitsSound", "DecisionConforms", "StatsConform"):
+            ctx.violation(key, "reproduced (%s): %s" % (v.violated, rp["what"]), case)
         elif v.ok:
             print("NOT REPRODUCED: ParseWithLimits(%d,%d) accepted=%s satisfies LimitsSound" % (lr["L"], lr["F"], lr["acc"]))
         else:
